@@ -14,9 +14,7 @@ class NetCheck(Check):
         return 6000 if tier == "quick" else 400000
 
     def prepare(self, ctx):
-        result = ctx.run({"id": "startup", "files": {"/sim/main.lay": "nil;"}, "main": "/sim/main.lay",
-                          "gc": schedules.every("full")})
-        self.startup = result["fired"][0][0]
+        self.startup = self.startup_probe(ctx)
 
     def make(self, ctx, index):
         rng = core.rng_for(ctx.seed, "nets", index)
